@@ -310,14 +310,23 @@ def dataset_like(sample_dataset: xarray.Dataset, new_dataset: xarray.Dataset) ->
         # missing_value in its attributes. If xarray has decoded the new
         # variable these live in the encoding instead. Copying the attribute
         # as well would make a variable that xarray refuses to save.
+        # Only the attributes that xarray decodes are affected; any other
+        # attribute is copied even if it shares a name with an encoding option.
         _update_no_clobber({
             name: value for name, value in sample_variable.attrs.items()
-            if name not in new_variable.encoding
+            if not (name in _DECODED_ATTRIBUTES and name in new_variable.encoding)
         }, new_variable.attrs)
         _update_no_clobber(sample_variable.encoding, new_variable.encoding)
 
     # Done!
     return like_dataset
+
+
+#: Attributes that xarray moves from `attrs` to `encoding` when decoding a variable
+_DECODED_ATTRIBUTES = frozenset({
+    '_FillValue', 'missing_value', 'scale_factor', 'add_offset', '_Unsigned',
+    'units', 'calendar', 'coordinates', 'grid_mapping',
+})
 
 
 def _update_no_clobber(source: Mapping[Hashable, Any], dest: MutableMapping[Hashable, Any]) -> None:
